@@ -3,6 +3,8 @@
 package main
 
 import (
+	"unicode"
+	"unicode/utf8"
 	"bufio"
 	"encoding/json"
 	"fmt"
@@ -78,8 +80,23 @@ func runC13Case(c c13Case) string {
 				got = append(got, fmt.Sprintf("%s:%v:%d+%d", m.Name, m.Confidence, m.Offset, m.Extent))
 			}
 			cls := "-"
-			if len(strings.Fields(nv)) == 1 && !strings.ContainsAny(nv, ".,;:!?()[]{}'\"-/") {
-				cls = "-"
+			// the copy ends inside a token of the unknown text: the reported extent runs to the end of that token
+			// (known finding); everything else about the match must still be exact
+			sep := func(i int) bool { // token boundary of the v1 tokenizer: white space or punctuation
+				rn, _ := utf8.DecodeRuneInString(nu[i:])
+				return unicode.IsSpace(rn) || unicode.IsPunct(rn)
+			}
+			if end := off + len(nv); off >= 0 && end < len(nu) && !sep(end) {
+				tokEnd := end
+				for tokEnd < len(nu) && !sep(tokEnd) {
+					_, w := utf8.DecodeRuneInString(nu[tokEnd:])
+					tokEnd += w
+				}
+				for _, m := range ms {
+					if m.Name == fmt.Sprintf("k%d", c.Planted) && m.Confidence == 1.0 && m.Offset == off && m.Offset+m.Extent == tokEnd {
+						cls = "copy-ends-inside-a-token"
+					}
+				}
 			}
 			return fmt.Sprintf("VIOL %s verbatim copy of value %d (%q) at offset %d extent %d not reported at 1.0 exactly: %v", cls, c.Planted, nv, off, len(nv), got)
 		}
@@ -111,7 +128,7 @@ func runC13Case(c c13Case) string {
 }
 
 var c13Vocab = []string{"alpha", "beta", "gamma", "delta", "epsilon", "one", "two", "three", "red", "green", "blue", "north", "south",
-	"(c)", "a.b", "x*y", "[z]", "q+r", "p|q", "^start", "end$", "back\\slash", "{1,2}", "what?", "é", "日本", "“q”", "don't", "1.2.3", "foo-bar", "%", "&",
+	"(c)", "a.b", "x*y", "[z]", "q+r", "p|q", "^start", "end$", "back\\slash", "C:\\Eclipse\\plugins", "a\\Eb", "\\Qx\\E", "docs\\Examples\\Quick", "{1,2}", "what?", "é", "日本", "“q”", "don't", "1.2.3", "foo-bar", "%", "&",
 	"\xff", "\xc3", "tab\there", "two  blanks", "line\nbreak"}
 
 var c13Filler = []string{"lorem", "ipsum", "dolor", "sit", "amet", "consectetur", "adipiscing", "elit", "sed", "do", "eiusmod", "tempor"}
@@ -171,6 +188,9 @@ func genC13(r *rng) c13Case {
 	}
 	if post != "" {
 		u = u + " " + post
+	} else if r.chance(1, 3) {
+		// the occurrence is continued by word characters and that token ends the text ("... this license" in "... this licensed")
+		u += []string{"d", "ed", "s", "2", "x-y"}[r.intn(5)]
 	}
 	c.Unknown = u
 	if r.chance(1, 2) {
